@@ -7,6 +7,8 @@ package main
 import (
 	"encoding/json"
 	"errors"
+	"fmt"
+	"os"
 	"strconv"
 
 	rt "github.com/arnodel/golua/runtime"
@@ -23,6 +25,7 @@ type qOp struct {
 	N   string
 	Lv  string
 	Err bool
+	Co  int
 	Def *qDef
 }
 
@@ -150,11 +153,18 @@ type qRun struct {
 	last  qLast
 	snap  *qObs
 	clk   uint64 // the virtual clock (ms) read by the runtime context manager through the verif hook
+
+	// coroutines (Quota.tla NCo > 0): each runs body() on its own goroutine through the real Thread API
+	cos    map[int]*rt.Thread
+	depths map[*rt.Thread]int // CallContext frames in progress per thread
 }
+
+// curDepth returns the number of CallContext frames in progress on the running thread.
+func (q *qRun) curDepth() int { return q.depths[q.t] }
 
 func (q *qRun) snapshot() {
 	if q.snap == nil {
-		q.snap = &qObs{Stack: projStack(q.r), Last: q.last, NFrames: q.depth}
+		q.snap = &qObs{Stack: projStack(q.r), Last: q.last, NFrames: q.curDepth()}
 	}
 }
 
@@ -164,6 +174,9 @@ func (q *qRun) body() error {
 	for q.i < len(q.ops) {
 		op := q.ops[q.i]
 		q.i++
+		if os.Getenv("VERIF_QDEBUG") != "" {
+			fmt.Fprintf(os.Stderr, "op %d %s thread=%p depth=%d\n", q.i, op.Op, q.t, q.depth)
+		}
 		switch op.Op {
 		case "tick":
 			q.clk += u64(op.N)
@@ -206,13 +219,15 @@ func (q *qRun) body() error {
 		case "begin":
 			q.last = qLast{Op: "begin", Pan: "none"}
 			q.depth++
+			me := q.t
+			q.depths[me]++
 			returned, started := false, false
 			var (
 				ctx rt.RuntimeContext
 				err error
 			)
 			kind, val := catch(func() {
-				ctx, err = q.t.CallContext(toDef(op.Def), func() error {
+				ctx, err = me.CallContext(toDef(op.Def), func() error {
 					started = true
 					e := q.body()
 					returned = true
@@ -220,6 +235,8 @@ func (q *qRun) body() error {
 				})
 			})
 			q.depth--
+			q.depths[me]--
+			q.t = me
 			if q.snap != nil {
 				return nil
 			}
@@ -251,6 +268,48 @@ func (q *qRun) body() error {
 				return errors.New("lua error")
 			}
 			return nil
+		case "costart", "resume":
+			var co *rt.Thread
+			if op.Op == "costart" {
+				co = rt.NewThread(q.r)
+				q.cos[op.Co] = co
+				bodyFn := rt.NewGoFunction(func(t *rt.Thread, c *rt.GoCont) (rt.Cont, error) {
+					q.t = t
+					if os.Getenv("VERIF_QDEBUG") != "" {
+						fmt.Fprintf(os.Stderr, "cobody starts thread=%p\n", t)
+					}
+					err := q.body()
+					return c.Next(), err
+				}, "cobody", 0, false)
+				bodyFn.SolemnlyDeclareCompliance(rt.ComplyCpuSafe | rt.ComplyMemSafe | rt.ComplyIoSafe | rt.ComplyTimeSafe)
+				co.Start(bodyFn)
+			} else {
+				co = q.cos[op.Co]
+			}
+			me := q.t
+			q.last = qLast{Op: op.Op, Pan: "none"}
+			_, rerr := co.Resume(me, nil)
+			if rerr != nil {
+				panic("resume failed: " + rerr.Error())
+			}
+			q.t = me
+			if q.snap != nil {
+				return nil
+			}
+			// the coroutine yielded or ended: the model logged that as its own step ("yield" / "coend")
+		case "yield":
+			q.last = qLast{Op: "yield", Pan: "none"}
+			me := q.t
+			if _, err := me.Yield(nil); err != nil {
+				panic("yield failed: " + err.Error())
+			}
+			q.t = me
+			if q.snap != nil {
+				return nil
+			}
+		case "coend":
+			q.last = qLast{Op: "coend", Pan: "none"}
+			return nil
 		case "unwind":
 			// performed by Go itself while the panic propagates
 		default:
@@ -274,9 +333,14 @@ func quotaReplay(args []string) int {
 			return err
 		}
 		r := rt.New(nil)
-		q := &qRun{r: r, t: r.MainThread(), ops: c.H}
+		q := &qRun{r: r, t: r.MainThread(), ops: c.H, cos: map[int]*rt.Thread{}, depths: map[*rt.Thread]int{}}
 		setClock(func() uint64 { return q.clk })
 		kind, val := catch(func() { q.body() })
+		for _, co := range q.cos { // do not leave parked goroutines behind
+			if co.Status() == rt.ThreadSuspended {
+				catch(func() { co.Close(r.MainThread()) })
+			}
+		}
 		obs := qObs{ID: c.ID}
 		if q.snap != nil {
 			obs = *q.snap
